@@ -11,7 +11,7 @@
    builders (KIn); the observation is the exception that reached the caller of the outermost block. *)
 From Coq Require Import ZArith NArith List Bool Arith.
 Import ListNotations.
-From HV Require Export lib.Harness model.Tracked model.BuilderErr spec.BuilderErrS.
+From HV Require Export lib.Harness model.Tracked model.BuilderErr spec.BuilderErrS model.BuilderParts spec.BuilderPartsS.
 
 Inductive oexc := XNone | XErr (e : eclass) | XOther.
 
@@ -29,6 +29,9 @@ Inductive case :=
 | KPlainAdd (args : list arg) (obs : oexc)
 | KTrackedIdx (tr : tracked) (i : Z) (obs : oexc)
 | KSerialise (nodes : list (opfields N)) (obs : oexc)
+(* a program given by WHAT IT DID (which containers it opened, which finishing calls it made, which functions'
+   outputs it only declared, which partial operations it never wired), then one of the serialisers *)
+| KSerParts (ps : list part) (obs : oexc)
 (* the call(s) of c made inside `depth` nested `with` blocks of builders whose __exit__ has nothing to check
    (DfBase: Dfg / Function / Case / Block / TailLoop, Cfg, a Conditional whose cases were all requested);
    obs inside c = what reached the caller of the outermost block *)
@@ -196,6 +199,11 @@ Definition serialise_demand (nodes : list (opfields N)) : demand :=
   refuse (if existsb (existsb (fun f : option rowN => match f with None => true | Some _ => false end)) nodes
           then [IncompleteOp] else []).
 
+(* the specification's side for a program of parts: something left unfinished (spec/BuilderPartsS.v: stated on the
+   calls made - a declaration of outputs finishes nothing) => IncompleteOp; all finished => it serialises *)
+Definition serparts_demand (ps : list part) : demand :=
+  refuse (if left_unfinished_b ps then [IncompleteOp] else []).
+
 Fixpoint all2 {A B} (f : A -> B -> bool) (a : list A) (b : list B) : bool :=
   match a, b with
   | [], [] => true
@@ -232,6 +240,7 @@ Fixpoint corr (c : case) : bool :=
   | KPlainAdd args obs => agree (of_res (plain_add_decision args)) obs
   | KTrackedIdx tr i obs => agree (of_res (tracked_index_decision tr i)) obs
   | KSerialise nodes obs => agree (of_res (serialise N nodes)) obs
+  | KSerParts ps obs => agree (of_res (serialise_parts N ps)) obs      (* the model of the builders' bookkeeping *)
   (* the model's `with` of builders whose __exit__ returns None hands on what the body did
      (with_plain depth fl = fl, C13_plain_contexts_transparent): the decision is the call's own *)
   | KIn _ c' => corr c'
@@ -248,6 +257,7 @@ Fixpoint mon (c : case) : bool :=
   | KPlainAdd args obs => meets (plainadd_demand args) obs
   | KTrackedIdx tr i obs => meets (tidx_demand tr i) obs
   | KSerialise nodes obs => meets (serialise_demand nodes) obs
+  | KSerParts ps obs => meets (serparts_demand ps) obs
   (* an error raised inside `with` blocks must reach the caller, a consistent call stays accepted: the demand
      on what leaves the outermost block is the demand on the call *)
   | KIn _ c' => mon c'
